@@ -13,6 +13,8 @@ LEVEL = {
  "C07": ("model_checking", "recorded assume() results are compared by TLC with evaluation on the union (library results and structurally through Iv), complete rest-boxes, bounds containment of unmentioned variables."),
  "C08": ("model_checking", "recorded reduce() results: TLC checks equal evaluation on every interpretation of the free leaves (library results and structurally) and that no constant is left inside."),
  "C10": ("model_checking", "adversarial builder universes (reused explicit ids, equal ids with different bounds incl. equal sums and the -1/-2 pair, self references, shared sub-propositions) enumerated by TLC; recorded errors() must satisfy accepted => WellDefined and TreeDistinct/SharesIdenticalOnly => accepted."),
+ "C16": ("model_checking", "TLC enumerates recipes over every class of the JSON class map (incl. defaulted configurator Any/Xor and StingyConfigurator) and validates recorded to_json -> json.dumps/loads -> from_json round trips: same leaves and bounds, equal evaluation on the complete box (library results and structurally), explicit ids kept, no id emitted for generated ones, configurators: same tags, default priorities and polyhedron solution set up to generated-id naming."),
+ "C17": ("model_checking", "recorded to_b64/from_b64 round trips of propositions and configurator polyhedra are compared by TLC field by field on abstract values (projection, to_short forms, a fixed query battery incl. select with capture and brute-force solvers; unpack - mutate - unpack again); the byte format itself is outside the model."),
 }
 NOTE = "trusted: TLC/SANY + CommunityModules Json; harness/proj.py (projection of public attributes) and harness/tlaval.py; exhaustive only inside the universes listed in the evidence (spec_runs); random batch is seeded by VERIF_SEED"
 TECH = "explicit TLA+ spec (PuanModel/PuanCtor/PuanBuild) model-checked by TLC + TLC trace validation (PuanTrace) of recorded implementation events"
